@@ -85,10 +85,13 @@ func NewTargetsManager(storeDir string, promRegistry prometheus.Registerer, log 
 }
 
 // Load load local targets information from storeDir
-func (t *TargetsManager) Load() error {
+func (t *TargetsManager) Load() (err error) {
 	_ = os.MkdirAll(t.storeDir, 0755)
 	defer func() {
-		_ = t.UpdateTargets(&shard.UpdateTargetsRequest{Targets: t.targets.Targets})
+		// do not overwrite a store that can not be read
+		if err == nil {
+			_ = t.UpdateTargets(&shard.UpdateTargetsRequest{Targets: t.targets.Targets})
+		}
 	}()
 
 	data, err := ioutil.ReadFile(t.storePath())
@@ -181,10 +184,12 @@ func (t *TargetsManager) doCallbacks() error {
 
 func (t *TargetsManager) saveTargets() error {
 	data, _ := json.Marshal(&t.targets)
-	if err := ioutil.WriteFile(t.storePath(), data, 0755); err != nil {
+	// write to a temp file first, the store must not be left truncated if writing is interrupted
+	tmp := t.storePath() + ".tmp"
+	if err := ioutil.WriteFile(tmp, data, 0755); err != nil {
 		return err
 	}
-	return nil
+	return os.Rename(tmp, t.storePath())
 }
 
 func (t *TargetsManager) storePath() string {
